@@ -270,7 +270,7 @@ fn explore_states(run: &mut Run, oracle: Oracle) {
         let hist: Vec<FlatEv> = f.iter().map(|i| alphabet[*i as usize]).collect();
         eval_history(run, &hist, start, oracle);
     }
-    run.part("state_exploration", json!({"alphabet": alphabet.len(), "states_found": out.states, "state_cap": cap, "closed": out.closed, "max_depth": out.max_depth, "histories_replayed": out.histories_run, "events_replayed": out.steps, "failing_histories(sampled)": out.failures.len()}));
+    run.part("state_exploration", json!({"alphabet": alphabet.len(), "states_found": out.states, "state_cap": cap, "closed": out.closed, "detail": crate::explore::outcome_json(&out), "max_depth": out.max_depth, "histories_replayed": out.histories_run, "events_replayed": out.steps, "failing_histories(sampled)": out.failures.len()}));
 }
 
 fn witness(bits: u16) -> Vec<FlatEv> {
